@@ -75,18 +75,21 @@ fn day_line(d: &SolarDay, first: bool, _p: Option<&SolarDay>) -> String {
   let (ti, tdi, ty) = td.as_ref().map(|t| (t.get_solar_term().get_index() as i64, t.get_day_index() as i64, t.get_solar_term().get_year() as i64)).unwrap_or((-1, -1, -1));
   let tj = td.as_ref().and_then(|t| catch(|| jdn(&t.get_solar_term().get_julian_day().get_solar_day()))).unwrap_or(-1);
   let nj = td.as_ref().and_then(|t| catch(|| jdn(&t.get_solar_term().next(1).get_julian_day().get_solar_day()))).unwrap_or(-1);
+  // ... and the civil days of the same two terms' INSTANTS
+  let tij = td.as_ref().and_then(|t| term_time(&t.get_solar_term())).map(|x| jdn(&x.get_solar_day())).unwrap_or(-1);
+  let nij = td.as_ref().and_then(|t| catch(|| t.get_solar_term().next(1))).and_then(|n| term_time(&n)).map(|x| jdn(&x.get_solar_day())).unwrap_or(-1);
   let gt = catch(|| d.get_term().get_index() as i64).unwrap_or(-1);
-  Ev::new("d").b("s", first).i("y", y).i("m", m).i("d", dd).i("j", j).b("ok", td.is_some()).i("ti", ti).i("td", tdi).i("ty", ty).i("tj", tj).i("nj", nj).i("gt", gt).done()
+  Ev::new("d").b("s", first).i("y", y).i("m", m).i("d", dd).i("j", j).b("ok", td.is_some()).i("ti", ti).i("td", tdi).i("ty", ty).i("tj", tj).i("nj", nj).i("tij", tij).i("nij", nij).i("gt", gt).done()
 }
 
-fn instant_lines(ctx: &Ctx, tag: &str, years: Vec<i64>, salt: u64) -> usize {
+fn instant_lines(ctx: &Ctx, tag: &str, years: Vec<i64>, salt: u64, force: &std::collections::HashSet<(i64, i64)>) -> usize {
   let mut sink = ctx.sink("Trace_C06", tag);
   sink.segment();
   let mut rng = ctx.rng(salt);
   let mut first = true;
   for y in years {
     for i in 0..24i64 {
-      if ctx.quick() && (i + y) % 3 != 0 {
+      if ctx.quick() && (i + y) % 3 != 0 && !force.contains(&(y, i)) {
         continue;
       }
       let t = match catch(|| SolarTerm::from_index(y as isize, i as isize)) {
@@ -118,8 +121,41 @@ fn instant_lines(ctx: &Ctx, tag: &str, years: Vec<i64>, salt: u64) -> usize {
   sink.total
 }
 
+/// all terms of years 2..9998 whose instant lies within two minutes of a civil midnight: where "the day on which the
+/// instant falls" is decided by rounding / truncation (about 660 of 240,000)
+fn near_midnight_terms(ctx: &Ctx) -> Vec<(i64, i64, i64)> {
+  let parts = chunks(2, 9998, ctx.threads);
+  let mut out: Vec<(i64, i64, i64)> = Vec::new();
+  std::thread::scope(|s| {
+    let hs: Vec<_> = parts.into_iter().map(|(a, b)| {
+      s.spawn(move || {
+        let mut v = Vec::new();
+        for y in a..=b {
+          for i in 0..24i64 {
+            if let Some(tt) = catch(|| SolarTerm::from_index(y as isize, i as isize)).and_then(|t| term_time(&t)) {
+              let (j, sod) = inst(&tt);
+              if sod < 120 || sod >= 86400 - 120 {
+                v.push((y, i, j));
+              }
+            }
+          }
+        }
+        v
+      })
+    }).collect();
+    for h in hs {
+      out.extend(h.join().unwrap());
+    }
+  });
+  out
+}
+
 pub fn run(ctx: &Ctx) -> usize {
-  let wins = day_windows(ctx, 601, 150, 200, 1);
+  let mut wins = day_windows(ctx, 601, 150, 200, 1);
+  let near = if ctx.quick() { near_midnight_terms(ctx) } else { Vec::new() };
+  for (_, _, j) in near.iter() {
+    wins.push(Window { start: Start::Jdn(*j - 2), days: 5 });
+  }
   let a = walk_days(ctx, "Trace_C06", wins, day_line);
   let yranges: Vec<(i64, i64)> = if ctx.quick() {
     let mut v = vec![(1, 6), (640, 643), (1580, 1584), (1644, 1646), (1959, 1962), (2022, 2025), (7270, 7280), (8714, 8718), (9995, 9999)];
@@ -127,6 +163,9 @@ pub fn run(ctx: &Ctx) -> usize {
     for _ in 0..400 {
       let a = rng.range(2, 9995);
       v.push((a, a + 2));
+    }
+    for (y, _, _) in near.iter() {
+      v.push((*y, *y));
     }
     v
   } else {
@@ -144,16 +183,19 @@ pub fn run(ctx: &Ctx) -> usize {
     for _ in 0..400 {
       v.push(rng.range(2, 9998));
     }
+    v.extend(near.iter().map(|(y, _, _)| *y));
     v
   } else {
     (1..=9999).collect()
   };
+  let force: std::collections::HashSet<(i64, i64)> = near.iter().map(|(y, i, _)| (*y, *i)).collect();
+  let force = &force;
   let parts = deal(yranges, ctx.threads);
   let iparts = deal(iyears, ctx.threads);
   let mut b = 0usize;
   std::thread::scope(|s| {
     let hs: Vec<_> = parts.into_iter().zip(iparts.into_iter()).enumerate().map(|(t, (p, q))| {
-      s.spawn(move || term_lines(ctx, &format!("t{:02}", t), p) + instant_lines(ctx, &format!("i{:02}", t), q, 6000 + t as u64))
+      s.spawn(move || term_lines(ctx, &format!("t{:02}", t), p) + instant_lines(ctx, &format!("i{:02}", t), q, 6000 + t as u64, force))
     }).collect();
     for h in hs {
       b += h.join().unwrap();
